@@ -157,6 +157,9 @@ func (fc *FnCtx) callByContract(fr *Frame, st *State, reach string, con *Contrac
 		env := fc.specEnv(st, pre, vars, con.Pkg, nil, cl.Text)
 		var t string
 		if i < len(con.Defines) {
+			if fc.mentionsUnusedVolatile(cl.Text) {
+				continue // defines an observation register this function never looks at
+			}
 			// a ghost definition may name locals of the callee's body (e.g. a loop
 			// index): such a clause only has a meaning inside the callee
 			var ok bool
@@ -474,6 +477,7 @@ func (fc *FnCtx) applyModifies(st, pre *State, con *Contract, vars map[string]Va
 		st.heap["GH$sendtries"] = fc.sc.fresh("gh_sendtries", "(Array Int Int)")
 		fc.sorts["GH$sendtries"] = "(Array Int Int)"
 	}
+	fc.forgetVolatileGhosts(st)
 	// callee allocations: allocation only grows
 	if con.allocates() {
 		old := fc.alloc(st)
@@ -483,6 +487,53 @@ func (fc *FnCtx) applyModifies(st, pre *State, con *Contract, vars map[string]Va
 		fc.noteWrite("Alloc")
 	}
 	return deferred
+}
+
+// forgetVolatileGhosts: a volatile ghost field is not covered by anybody's frame,
+// so every call by contract forgets it (a `defines` clause of the callee then
+// gives it its new value).
+func (fc *FnCtx) forgetVolatileGhosts(st *State) {
+	var gn []string
+	for n := range fc.eng.ghosts {
+		gn = append(gn, n)
+	}
+	sort.Strings(gn)
+	for _, n := range gn {
+		if g := fc.eng.ghosts[n]; g.Field && g.Volatile && fc.usesVolatile(n) {
+			srt := "(Array Int " + g.Ret + ")"
+			st.heap["GH$"+n] = fc.sc.fresh("gh_"+n, srt)
+			fc.sorts["GH$"+n] = srt
+		}
+	}
+}
+
+// usesVolatile: only functions whose own contract mentions a volatile ghost ever
+// read it (spec evaluation refuses the read otherwise), so the others need not
+// model it at all -- their verification conditions stay as they were.
+func (fc *FnCtx) usesVolatile(name string) bool {
+	return fc.con != nil && strings.Contains(fc.con.AllText, name+"(")
+}
+
+func (fc *FnCtx) mentionsUnusedVolatile(text string) bool {
+	for n, g := range fc.eng.ghosts {
+		if g.Field && g.Volatile && strings.Contains(text, n+"(") && !fc.usesVolatile(n) {
+			for n2, g2 := range fc.eng.ghosts {
+				if g2.Field && !g2.Volatile && strings.Contains(text, n2+"(") {
+					unsup("a defines clause mixes the volatile ghost %s with %s", n, n2)
+				}
+			}
+			return true
+		}
+	}
+	return false
+}
+
+func (fc *FnCtx) isVolatileGhost(heapName string) bool {
+	if !strings.HasPrefix(heapName, "GH$") {
+		return false
+	}
+	g := fc.eng.ghosts[strings.TrimPrefix(heapName, "GH$")]
+	return g != nil && g.Volatile
 }
 
 func mentionsSendTries(con *Contract) bool {
@@ -540,6 +591,9 @@ func (fc *FnCtx) keepPrefixesOf(con *Contract, toks []string) []string {
 		case tok == "bytes":
 			out = append(out, "M$uint8$")
 		case fc.eng.ghosts[tok] != nil:
+			if fc.eng.ghosts[tok].Volatile {
+				unsup("volatile ghost field %s in a keep-list", tok)
+			}
 			out = append(out, "GH$"+tok)
 		default:
 			env := fc.specEnv(nil, nil, nil, con.Pkg, nil, "modifies allbut "+tok)
@@ -1078,7 +1132,7 @@ func (fc *FnCtx) verify() {
 					kept = true
 				}
 			}
-			if !kept || fc.volatileNames[name] {
+			if !kept || fc.volatileNames[name] || fc.isVolatileGhost(name) {
 				continue
 			}
 			if cond := fc.frameCond(st, name, fc.ownDefTargets); cond != "" {
@@ -1164,6 +1218,9 @@ func (fc *FnCtx) frameCheck(fr *Frame, st, pre *State, con *Contract, vars map[s
 	for _, name := range names {
 		if name == "GH$sendtries" && !mentionsSendTries(con) {
 			continue
+		}
+		if fc.isVolatileGhost(name) {
+			continue // not covered by frames: forgotten by every caller at every call
 		}
 		if fc.volatileNames[name] {
 			fc.assumption("A-MON-FRAME: the frame condition does not cover " + name + " (guarded by a monitor this function acquires: other threads may write it; its writes are governed by the monitor's invariant/history)")
